@@ -428,6 +428,8 @@ class IfExpressionParser:
             ret = self.__ifgrammer.parse_string(expression, True)
         except pyparsing.ParseBaseException as e:
             raise ParseError("Invalid syntax: " + str(e))
+        except RecursionError:
+            raise ParseError("Invalid syntax: expression too deeply nested")
         return ret[0]
 
     @classmethod
